@@ -12,7 +12,7 @@ import (
 func init() {
 	register(&propDef{
 		id:      "C39",
-		explain: "Structural necessary conditions of 'every child the prefork master starts is signalled, killed after the grace period if needed, and reaped before prefork returns': (R1) the deferred teardown is registered before the first child is spawned; (R2) typestate of every spawned child: on every path from a successful spawn to a return of prefork, to the next spawn, or to a user hook (which may fail or panic), the child has been recorded in the table the teardown iterates over and its Wait goroutine has been started under the WaitGroup the teardown waits on - a child that is recorded but not waited for is signalled but never reaped and is not covered by the kill fallback; (R3) the teardown passes, in this order on every path: cancel, a termination signal to each recorded child, a wait bounded by the grace timer, then kill of each child and an unbounded wait - or returns early only when the bounded wait saw all children exit; (R4) the supervision loop counts every reported exit and returns ErrOverRecovery under a comparison of that count with RecoverThreshold; each replacement goes through the same spawn typestate. Not decided: operating-system process behaviour, signal delivery, timing.",
+		explain: "Structural necessary conditions of 'every child the prefork master starts is signalled, killed after the grace period if needed, and reaped before prefork returns': (R1) the deferred teardown is registered before the first child is spawned; (R2) typestate of every spawned child: on every path from a successful spawn to a return of prefork, to the next spawn, or to a user hook (which may fail or panic), the child has been recorded in the table the teardown iterates over and its Wait goroutine has been started under the WaitGroup the teardown waits on - a child that is recorded but not waited for is signalled but never reaped and is not covered by the kill fallback; (R3) the teardown passes, in this order on every path: cancel, a termination signal to each recorded child, a wait bounded by the grace timer, then kill of each child and an unbounded wait - or returns early only when the bounded wait saw all children exit; (R4) the supervision loop counts every reported exit and returns ErrOverRecovery under a comparison of that count with the RecoverThreshold field itself (not a value substituted for it); each replacement goes through the same spawn typestate. Not decided: operating-system process behaviour, signal delivery, timing.",
 		run:     runC39,
 	})
 }
@@ -324,7 +324,7 @@ func runC39(p *Prog, r *Report) {
 	}
 	// ---- R4 threshold ----
 	{
-		ok := false
+		ok, direct := false, true
 		for _, b := range fn.Blocks {
 			rt, isRet := b.Instrs[len(b.Instrs)-1].(*ssa.Return)
 			if !isRet {
@@ -336,10 +336,23 @@ func runC39(p *Prog, r *Report) {
 						if strings.Contains(g.Atom, "RecoverThreshold") && g.Pol {
 							ok = true
 						}
+						// the threshold compared is the configured one itself: a value merged with a substitute
+						// (a 'default' for zero) lets more children be restarted than RecoverThreshold allows
+						if bo, isBo := g.Cond.(*ssa.BinOp); isBo && strings.Contains(g.Atom, "RecoverThreshold") {
+							for _, o := range []ssa.Value{bo.X, bo.Y} {
+								if hasAtomContaining(condAtoms(o), "RecoverThreshold") {
+									if _, fv := loadedField(o); fv == nil || fv.Name() != "RecoverThreshold" {
+										direct = false
+									}
+								}
+							}
+						}
 					}
 				}
 			}
 		}
 		r.Check("R4", "prefork returns ErrOverRecovery under a comparison of the exit count with RecoverThreshold", ok, p.Pos(fn.Pos()), "no return of ErrOverRecovery controlled by RecoverThreshold")
+		r.Check("R4", "the exit count is compared with the configured RecoverThreshold itself, not with a value that may have been substituted for it", direct, p.Pos(fn.Pos()),
+			"the threshold in the comparison is merged from RecoverThreshold and something else: with RecoverThreshold = 0 the first exit must already end the master, a substituted default restarts children instead")
 	}
 }
